@@ -170,18 +170,7 @@ class Acc:
 
     def run(self, sub, oracle, inp, distinct_by_construction=False):
         """Run oracle(inp), turning exceptions raised by the code under test into failures."""
-        try:
-            res = oracle(inp)
-        except (HarnessError, TimeLimit, KeyboardInterrupt, MemoryError):
-            raise
-        except Exception as e:
-            sig = exc_signature(e)
-            if sig is None:
-                raise HarnessError(
-                    f"oracle {self.prop}/{sub} crashed outside the code under test on input "
-                    f"{_short(inp, 300)}:\n{traceback.format_exc()}"
-                )
-            res = ((sig, f"{type(e).__name__}: {e}", "no exception"), True, ("exception",))
+        res = eval_oracle(self.prop, sub, oracle, inp)
         return self.record(sub, inp, res, distinct_by_construction)
 
     # -- transport ---------------------------------------------------------------------------
@@ -221,6 +210,23 @@ class Acc:
         self.exhaustive.update(ex["exhaustive"])
 
 
+def eval_oracle(prop, sub, oracle, inp):
+    """oracle(inp) with exceptions raised by the code under test turned into a failure result;
+    an exception with no frame in the code under test is a harness error."""
+    try:
+        return oracle(inp)
+    except (HarnessError, TimeLimit, KeyboardInterrupt, MemoryError):
+        raise
+    except Exception as e:
+        sig = exc_signature(e)
+        if sig is None:
+            raise HarnessError(
+                f"oracle {prop}/{sub} crashed outside the code under test on input "
+                f"{_short(inp, 300)}:\n{traceback.format_exc()}"
+            )
+        return ((sig, f"{type(e).__name__}: {e}", "no exception"), True, ("exception",))
+
+
 def run_cases(acc, sub, oracle, inputs, distinct_by_construction=False):
     for inp in inputs:
         acc.run(sub, oracle, inp, distinct_by_construction)
@@ -242,18 +248,7 @@ def run_hyp(acc, sub, oracle, strategy, max_examples, seed, max_rounds=6, shrink
 
         def body(x):
             inp = to_input(x) if to_input else x
-            try:
-                res = oracle(inp)
-            except (HarnessError, TimeLimit, KeyboardInterrupt, MemoryError):
-                raise
-            except Exception as e:
-                sig = exc_signature(e)
-                if sig is None:
-                    raise HarnessError(
-                        f"oracle {acc.prop}/{sub} crashed outside the code under test on input "
-                        f"{_short(inp, 300)}:\n{traceback.format_exc()}"
-                    )
-                res = ((sig, f"{type(e).__name__}: {e}", "no exception"), True, ("exception",))
+            res = eval_oracle(acc.prop, sub, oracle, inp)
             fail = res[0]
             if fail is not None:
                 # known findings and already recorded root causes do not stop the search
